@@ -2,9 +2,12 @@
    run-time panic) or OutOfFuel (the loop bound derived from the input length
    ran out).  The theorems below say that Panic is unreachable, for every
    input; they are proved with a Hoare logic over the pars model
-   (proofs/Safety.v) whose invariant is the shape of the backtracking stack. *)
+   (proofs/Safety.v) whose invariant is the shape of the backtracking stack.
+   input_bound = 10^9 - 1 bytes: the ORIGIN validators print the line index
+   with "%9d" and size the block for nine columns, so the statements are about
+   inputs below a gigabyte (beyond it validateOrigin can index past its buffer). *)
 From GTS Require Import Base Arith Pars Loc LocParse Insdc Origin GenBank Fasta
-     GenBankProofs ParsLemmas Safety JoinSafe LocSafe ReaderSafe.
+     GenBankProofs ParsLemmas Safety JoinSafe LocSafe OriginSafe ReaderSafe.
 Open Scope Z_scope.
 
 (* AsDate returns a date or an error for every string *)
@@ -15,31 +18,37 @@ Print Assumptions C07_date_total.
 (* gts.AsLocation and the locator's tryLocation never panic, whatever the
    string: Join/Order are only ever handed non-empty lists of locations that
    contain no empty join *)
-Theorem C07_location_no_panic : forall s, as_location s <> Panic.
+Theorem C07_location_no_panic : forall s, zlen s <= input_bound -> as_location s <> Panic.
 Proof. exact as_location_no_panic. Qed.
 Print Assumptions C07_location_no_panic.
 
-Theorem C07_try_location_no_panic : forall s, try_location s <> Panic.
+Theorem C07_try_location_no_panic : forall s, zlen s <= input_bound -> try_location s <> Panic.
 Proof. exact try_location_no_panic. Qed.
 Print Assumptions C07_try_location_no_panic.
 
 (* the FASTA scanner and the feature-table parser never panic *)
-Theorem C07_fasta_scan_no_panic : forall input, scan_fasta input <> Panic.
+Theorem C07_fasta_scan_no_panic : forall input, zlen input <= input_bound -> scan_fasta input <> Panic.
 Proof. exact scan_fasta_no_panic. Qed.
 Print Assumptions C07_fasta_scan_no_panic.
 
-Theorem C07_table_parser_no_panic : forall reg input, fst (table_parser [] reg (st_of input)) <> Panic.
+Theorem C07_table_parser_no_panic : forall reg input, zlen input <= input_bound ->
+  fst (table_parser [] reg (st_of input)) <> Panic.
 Proof. exact table_parser_no_panic. Qed.
 Print Assumptions C07_table_parser_no_panic.
 
-(* the GenBank scanner and the auto-detecting scanner never panic, given that
-   the ORIGIN block reader does not (its hand-indexed byte access is the one
-   part not yet covered: the hypothesis is stated, not assumed globally) *)
-Theorem C07_genbank_scan_no_panic_partial :
-  (forall len, safe (origin_block_parser len)) ->
-  forall reg input, scan_genbank reg input <> Panic /\ auto_scan reg input <> Panic.
-Proof. intros H reg input. split; [apply scan_genbank_no_panic_given|apply auto_scan_no_panic_given]; exact H. Qed.
-Print Assumptions C07_genbank_scan_no_panic_partial.
+(* the GenBank scanner and the auto-detecting scanner never panic.  This
+   includes the hand-indexed ORIGIN validators: once Request(toOriginLength(n))
+   succeeded, validateOrigin and the slow line-by-line reader stay inside the
+   buffer (OriginSafe.v), for every declared length n *)
+Theorem C07_genbank_scan_no_panic : forall reg input, zlen input <= input_bound ->
+  scan_genbank reg input <> Panic /\ auto_scan reg input <> Panic.
+Proof. intros reg input Hb. split; [apply scan_genbank_no_panic|apply auto_scan_no_panic]; assumption. Qed.
+Print Assumptions C07_genbank_scan_no_panic.
+
+Theorem C07_origin_validator_in_bounds : forall p len, 0 <= len < 10 ^ 9 ->
+  zlen p = go_toOriginLength len -> validate_origin p len <> Panic.
+Proof. exact validate_origin_no_panic. Qed.
+Print Assumptions C07_origin_validator_in_bounds.
 
 (* the ORIGIN reader asks for toOriginLength(declared length) bytes; the model
    computes that request without building the number in unary, and the
